@@ -52,9 +52,9 @@ CLAIMED = {
             'exploration: held on ~4x10^3 points per quick run over 100 stacks of 2-6 features (~30 worlds each) covering every feature type and operation; the fold oracle needs no knowledge of any model formula',
             'coverage is decided by the code\'s own single-feature answer (tag != -1); stacks containing the mass conserving model (reads the value painted so far) take part in locality/tag only; velocity is not part of the property',
             'DESIGN.md section 4, C02'),
-    'C07': ('runtime monitoring with instrumentation hooks: the same queries against a world built normally and a world built with the GWB_VERIF switch that disables bounding box, depth cut-off, depth-surface pre-test and nearest-triangle search; bit equality, margin pass for depth-surface rounding (ASan+UBSan build)',
+    'C07': ('runtime monitoring with instrumentation hooks: the same queries against a world built normally and a world built with the GWB_VERIF switch that disables bounding box, depth cut-off, the depth-surface pre-tests of features and of their models, and the nearest-triangle search; bit equality, margin pass for depth-surface rounding (ASan+UBSan build)',
             'exploration: held on ~3.4x10^4 paired queries per quick run with generators biased to where the bounds are tight (deep starts, shallow/steep/overturned dips, short thick slabs, negative truncations, high latitudes, dateline, points around the buffered box and cut-off)',
-            'the models\' own min/max pre-tests (about 40 copies) are not hooked; a difference is excused only if both worlds agree 1e-9 (relative) above and below the query depth and the two sides differ',
+            'the 30 area-feature models with a local depth range skip their own min/max pre-test in the second world (hook 5); plume models have constant ranges only; a difference is excused only if both worlds agree 1e-9 (relative) above and below the query depth and the two sides differ',
             'DESIGN.md section 4, C07'),
     'C08': ('runtime monitoring: metamorphic monitor - a world and its rigidly moved copy (every coordinate-valued entry transformed, query moved with it; 3D entry point and, with the same section coordinates, the 2D entry point) answered in one process, tolerance comparison with the margin rule; plus a reference-model monitor of the ridge kernel called directly (independent statement of the construction in vlib/ridgeref.py) whose verdict also decides which differences belong to the known one-alias finding (ASan+UBSan build)',
             'exploration: held on ~2.6x10^4 paired world queries and ~4.8x10^3 ridge kernel calls per quick run (all feature and model types, curved trenches, sections, depth surfaces, ridges incl. short oblique ones at the date line; any rotation/translation up to 1e7 m; longitude offsets moving footprints across the date line, incl. +-360)',
